@@ -759,7 +759,7 @@ func (w *wbag) SequencesChan() chan align.Sequence {
 
 var reGoroutine = regexp.MustCompile(`(?m)^goroutine \d+ \[([^\]]+)\]:`)
 
-// classifyStuck: the consumer waits for the stream while no goroutine started by Phase can run.
+// classifyStuck: the consumer waits for the stream while no goroutine started by Phase (nor the producer feeding it) can run.
 func classifyStuck(dump string) (bool, string) {
 	workers, blocked := 0, 0
 	for _, b := range strings.Split(dump, "\n\n") {
@@ -767,7 +767,8 @@ func classifyStuck(dump string) (bool, string) {
 		if m == nil {
 			continue
 		}
-		if !strings.Contains(b, "align.(*phaser).Phase.func") {
+		// the goroutines started by Phase, and the wrapper's own sequence producer (it may be sleeping by plan)
+		if !strings.Contains(b, "align.(*phaser).Phase.func") && !strings.Contains(b, "(*wbag).SequencesChan.func") {
 			continue
 		}
 		workers++
